@@ -103,7 +103,7 @@ def struct_templates():
     t.append([101000, 31001, 221001, 12001, 101000, 31001, 1001])
     t.append([208002, 101000, 31001, 1015, 208000])
     t.append([102000, 31002, 207001, 11003])                         # bracket left open inside the loop body
-    t.append([101000, 31001, 101000, 31001, 101000, 31000, 2001])
+    t.append([105000, 31001, 103000, 31001, 101000, 31000, 2001])     # every level counts the inner factor and body
     t.append([301011, 101000, 31001, 301012, 101000, 31001, 301021])
     return t
 
